@@ -108,6 +108,21 @@ PIXELS = [
 ]
 
 
+NATIVE_RESULTS = []
+
+
+def replay_by_native_search(unit, failure):
+    """A refuted local (per-pixel) obligation has no input-level counterexample of its own: the eight neighbour
+    answers are abstract.  The failing input is searched for among every weak order of the small grids - the
+    exhaustive-native sweep of the same run (real template from /repo vs Bitmap_cubical_complex + cohomology)."""
+    for n in NATIVE_RESULTS:
+        if n["unit"].startswith("native.rect") and n.get("failures"):
+            c = n["failures"][0]
+            return {"reproduced": True, "detail": f"{n['unit']}: real routine differs from cubical persistence on input {c.get('input')}",
+                    "native_case": c}
+    return {"reproduced": None, "detail": "no weak order of the swept grids makes the real routine differ from cubical persistence"}
+
+
 def H(decls, call):
     return "int main(void) {\n" + decls + "\n  " + call + "\n  __CPROVER_assert(0, \"VP_REACH\");\n  return 0;\n}\n"
 
@@ -149,7 +164,7 @@ int main(void) {
                      f"  g_fval = nondet_int(); g_kind = {kind};")
             U.append(Unit(f"rect.pixel.{key}.{mode}", "C14", [fn_hl(C_HL_TABLE), fn_spv(), fn_sps(), fn],
                           enforce=name, replace=["has_larger_input"], includes=["c14_glue.h"], defines=defs,
-                          unwind=10, inputs=["in_x", "in_y", "dy", "size_y", "g_nd", "g_fval"],
+                          unwind=10, inputs=["in_x", "in_y", "dy", "size_y", "g_nd", "g_fval"], replay=replay_by_native_search,
                           harness="size_t nondet_size(void); _Bool nondet_bool(void); int nondet_int(void);\n" +
                                   H(decls, f"{name}({args});"),
                           object_bits=12,
@@ -177,3 +192,110 @@ ASSUMPTIONS = [
     "L5 order-isomorphism invariance: code that touches the values only through `<` behaves identically on order-isomorphic inputs",
     "grid sides up to 65536 in the pixel contracts (so that index arithmetic cannot wrap in size_t)",
 ]
+
+
+# ------------------------------------------------------------------------------------------------ native stand-ins
+INC = ["-I/repo/src/Persistent_cohomology/include", "-I/repo/src/Bitmap_cubical_complex/include",
+       "-I/repo/src/common/include"]
+
+
+def _build_native(name, bdir, extra=()):
+    import time
+    src = os.path.join(VERIF, "native", name + ".cpp")
+    out = os.path.join(bdir, name + ("_san" if extra else ""))
+    os.makedirs(bdir, exist_ok=True)
+    rc, o, e, s = sh(["g++", "-std=c++17", "-O2", "-w"] + list(extra) + INC + [src, "-o", out], 600, mem_kb=16 * 1024 * 1024)
+    if rc != 0:
+        raise RuntimeError(f"native build of {name} failed: {(o + e)[-1500:]}")
+    return out
+
+
+def native(tier, seed, bdir, only=None):
+    """exhaustive-native stand-ins (DESIGN route N): the real templates compiled from /repo's current tree, run on
+    every weak order of small inputs.  Labelled bounded; never counted as proved."""
+    import concurrent.futures as cf
+    import fnmatch
+    import json
+    import time
+    thorough = tier == "thorough"
+    out = []
+    jobs = []   # (unit id, desc, bound, binary key, args list of shards)
+    NS = 16
+    rect_shapes = [(2, 2), (2, 3), (3, 2), (2, 4), (4, 2), (3, 3)]
+    for r, c in rect_shapes:
+        sh_n = 1 if r * c <= 6 else NS
+        jobs.append((f"native.rect.{r}x{c}", f"persistence_on_rectangle_from_top_cells, every weak order of a {r}x{c} grid, values and index mode, vs Bitmap_cubical_complex + Persistent_cohomology",
+                     f"grid {r}x{c}; every weak order (exhaustive for the shape)", "rect_sweep",
+                     [[str(r), str(c), str(k), str(sh_n)] for k in range(sh_n)], f"min(rows,cols)=={min(r, c)}"))
+    big = [(3, 4, 40000), (4, 3, 40000), (2, 7, 20000), (5, 5, 5000)] if not thorough else \
+          [(3, 4, 600000), (4, 3, 600000), (4, 4, 200000), (2, 9, 200000), (9, 2, 200000), (5, 5, 100000), (6, 7, 20000)]
+    for r, c, cnt in big:
+        per = cnt // NS
+        jobs.append((f"native.rect.{r}x{c}.sampled", f"same, {cnt} weak orders of a {r}x{c} grid sampled from VERIF_SEED (not exhaustive)",
+                     f"grid {r}x{c}; {cnt} sampled weak orders", "rect_sweep",
+                     [[str(r), str(c), "random", str(seed * 1000 + k), str(per)] for k in range(NS)], f"min(rows,cols)=={min(r, c)}"))
+    nmax = 9 if thorough else 8
+    for n in range(1, nmax + 1):
+        sh_n = 1 if n <= 7 else NS
+        jobs.append((f"native.line.n{n}", f"compute_persistence_of_function_on_line, every weak order of length {n}, std::less and std::greater, vs elder-rule union-find and (for less) Bitmap_cubical_complex + Persistent_cohomology",
+                     f"length {n}; every weak order", "line_sweep", [[str(n), str(k), str(sh_n)] for k in range(sh_n)], "line"))
+    san_n = 7 if thorough else 6
+    for n in range(1, san_n + 1):
+        jobs.append((f"native.line.n{n}.sanitized", f"same under -fsanitize=address,undefined -D_GLIBCXX_ASSERTIONS: no data.end()[-k] / erase / pop_back leaves the vector",
+                     f"length {n}; every weak order; ASan+UBSan build", "line_sweep_san", [[str(n), "0", "1"]], "line"))
+    if only:
+        jobs = [j for j in jobs if fnmatch.fnmatch(j[0], only)]
+    if not jobs:
+        return out
+    try:
+        bins = {"rect_sweep": _build_native("rect_sweep", bdir), "line_sweep": _build_native("line_sweep", bdir)}
+        bins["line_sweep_san"] = _build_native("line_sweep", bdir, ["-fsanitize=address,undefined", "-D_GLIBCXX_ASSERTIONS", "-fno-sanitize-recover=all", "-O1"])
+    except RuntimeError as ex:
+        return [{"unit": "native.build", "status": "error", "notes": str(ex), "cases": 0, "failures": []}]
+
+    def one(args):
+        key, a = args
+        t0 = time.time()
+        rc, o, e, s = sh([bins[key]] + a, 3600, mem_kb=None if key.endswith("san") else 8 * 1024 * 1024)
+        return rc, o, e, time.time() - t0
+
+    with cf.ThreadPoolExecutor(max_workers=16) as ex:
+        futs = {j[0]: [ex.submit(one, (j[3], a)) for a in j[4]] for j in jobs}
+        for uid, desc, bound, key, shards, iclass in jobs:
+            rec = {"unit": uid, "route": "B", "kind": "exhaustive-native", "bound": bound, "desc": desc, "status": "ok",
+                   "cases": 0, "failures": [], "seconds": 0.0, "obligations": 0}
+            for f in futs[uid]:
+                rc, o, e, s = f.result()
+                rec["seconds"] = round(rec["seconds"] + s, 2)
+                try:
+                    js = json.loads(o.strip().split("\n")[-1])
+                except (ValueError, IndexError):
+                    rec["status"] = "error"
+                    rec["notes"] = f"native run failed rc={rc}: {(o + e)[-800:]}"
+                    continue
+                if "crash_signal" in json.dumps(js["first"]):
+                    rec["crashed"] = True
+                rec["cases"] += js["checked"]
+                rec["obligations"] = rec["cases"]
+                for k, m in enumerate(js["first"]):
+                    if len(rec["failures"]) < 3:
+                        m["id"] = f"case{len(rec['failures'])}"
+                        m["input_class"] = iclass
+                        m["replay_cmd"] = f"{bins[key]} (rebuild: g++ -std=c++17 {' '.join(INC)} native/{key.replace('_san', '')}.cpp); input {m['input']}"
+                        rec["failures"].append(m)
+                rec["mismatches"] = rec.get("mismatches", 0) + js["mismatches"]
+            out.append(rec)
+    return out
+
+
+def selftest():
+    import tempfile
+    try:
+        d = tempfile.mkdtemp(prefix="c14st", dir=os.path.join(VERIF, "build") if os.path.isdir(os.path.join(VERIF, "build")) else None)
+        _build_native("rect_sweep", d)
+        _build_native("line_sweep", d)
+        import shutil
+        shutil.rmtree(d, ignore_errors=True)
+        return "native stand-ins build against /repo's headers"
+    except Exception as ex:
+        return "FAIL " + str(ex)[:500]
